@@ -73,13 +73,13 @@ var frzClonedElemTypes = map[string]bool{
 
 // cloned containers: dereferencing these fields of AST-package structs stays in fresh memory.
 var frzClonedContainers = map[string]string{
-	"js_ast.AST.Parts":            "CloneLinkerGraph: repr.AST.Parts = append([]js_ast.Part{}, ...)",
-	"js_ast.AST.ImportRecords":    "CloneLinkerGraph / parseFile: append([]ast.ImportRecord{}, ...)",
-	"css_ast.AST.ImportRecords":   "CloneLinkerGraph / parseFile: append([]ast.ImportRecord{}, ...)",
-	"js_ast.AST.NamedImports":     "CloneLinkerGraph: fresh map copy",
-	"js_ast.AST.ModuleScope":      "CloneLinkerGraph: new(js_ast.Scope) copy",
-	"js_ast.Scope.Generated":      "CloneLinkerGraph: append([]ast.Ref{}, ...) (module scope only; nested scopes are not reached post-parse)",
-	"js_ast.Part.SymbolUses":      "CloneLinkerGraph: fresh map copy per part",
+	"js_ast.AST.Parts":               "CloneLinkerGraph: repr.AST.Parts = append([]js_ast.Part{}, ...)",
+	"js_ast.AST.ImportRecords":       "CloneLinkerGraph / parseFile: append([]ast.ImportRecord{}, ...)",
+	"css_ast.AST.ImportRecords":      "CloneLinkerGraph / parseFile: append([]ast.ImportRecord{}, ...)",
+	"js_ast.AST.NamedImports":        "CloneLinkerGraph: fresh map copy",
+	"js_ast.AST.ModuleScope":         "CloneLinkerGraph: new(js_ast.Scope) copy",
+	"js_ast.Scope.Generated":         "CloneLinkerGraph: append([]ast.Ref{}, ...) (module scope only; nested scopes are not reached post-parse)",
+	"js_ast.Part.SymbolUses":         "CloneLinkerGraph: fresh map copy per part",
 	"ast.SymbolMap.SymbolsForSource": "CloneLinkerGraph: fresh outer array and per-file append([]ast.Symbol{}, ...)",
 }
 
